@@ -4,24 +4,19 @@
 From JV Require Import Sem Gen Spec SpecX.
 From JV.Hand Require Import Iter.
 From JV.Proofs Require Import SpecFacts Inner Cal Shape MonthSpec Month SpecSums SpecOrd SpecInv SpecSets SpecStep AtYmd AtJdn SuccPred IterProofs.
+From JV.Proofs Require Export NthDate.
 Import List ListNotations.
 Open Scope Z_scope.
 Ltac Zify.zify_post_hook ::= Z.to_euclidean_division_equations.
 
 (* ------------------------------------------------------------------ C10: later / earlier / and_later / and_earlier *)
-(* the date of day j in calendar c when j is a 32-bit day number, nothing otherwise *)
-Definition day_or_none (c : cal) (j : Z) : option Date := if in_i32b j then Some (date_of c j) else None.
+(* [day_or_none c j] (NthDate.v) = the date of day j in calendar c when j is a 32-bit day number, nothing otherwise *)
 
 Section Open.
   Context (c : cal) (V : ValidCal c).
   Definition on_cal (d : Date) : Prop := exists j, in_i32 j /\ d = date_of c j.
   Definition fsucc (d : Date) : option Date := day_or_none c (Date_f_jdn d + 1).
   Definition fpred (d : Date) : option Date := day_or_none c (Date_f_jdn d - 1).
-
-  Lemma in_i32b_true j : in_i32 j -> in_i32b j = true.
-  Proof. intros H. apply in_i32b_iff. exact H. Qed.
-  Lemma in_i32b_false j : ~ in_i32 j -> in_i32b j = false.
-  Proof. intros H. destruct (in_i32b j) eqn:E; [|reflexivity]. apply in_i32b_iff in E. contradiction. Qed.
 
   Lemma succ_on d : on_cal d -> Date_succ d = Ret (fsucc d).
   Proof.
@@ -106,13 +101,6 @@ Proof.
   - apply IH; [assumption|]. intros k' Hk'. apply G. right. exact Hk'.
 Qed.
 
-(* day number of the date with ordinal o of year y (closed form of jdn_of_ordinal) *)
-Lemma jdn_of_ordinal_closed c y o : ValidCal c -> 1 <= o <= year_count c y -> jdn_of_ordinal c y o = ylo c y + o - 1.
-Proof.
-  intros V H. destruct (ordinal_inv c y o V H) as [LY OO]. set (j := jdn_of_ordinal c y o) in *.
-  destruct (ordinal_closed c j V) as [_ O]. rewrite LY in O. lia.
-Qed.
-
 Section MonthIters.
   Context (c : cal) (V : ValidCal c) (y : Z) (Hy : in_i32 y) (m : Month).
   Let mz := Month_discr m.
@@ -120,48 +108,17 @@ Section MonthIters.
   Let n := month_count c y mz.
   Hypothesis Ex : 0 < n.
   Let ms := mkMonthShape (cal_of c) y m sp.
-  (* day number of the first date of the month *)
-  Definition month_base : Z := ylo c y + msum c y mz.
+  Let month_base : Z := NthDate.month_base c y m.
 
   Let Mr : 1 <= mz <= 12 := Month_discr_range m.
   Let W : WfShape sp := shape_of_wf c y mz V Mr Ex.
   Let Ln : sh_len sp = n := shape_of_len c y mz V Mr Ex.
 
-  Lemma n_small : 1 <= n <= 31.
-  Proof. pose proof (sh_len_pos sp W). lia. Qed.
-
-  Lemma month_shape_is : Calendar_month_shape (cal_of c) y m = Ret (Some ms).
-  Proof.
-    rewrite month_shape_ok by assumption. unfold month_shape_spec. fold mz. fold n.
-    destruct (Z.eqb_spec n 0); [lia|reflexivity].
-  Qed.
-
-  Lemma nth_day_closed k : in_u32 k ->
-    MonthShape_nth_day ms k = Ret (if (1 <=? k) && (k <=? n) then Some (sh_nth sp k) else None).
-  Proof. intros K. unfold ms. rewrite nth_day_ok by assumption. rewrite Ln. reflexivity. Qed.
-
-  Lemma nth_date_closed k : in_u32 k ->
-    MonthShape_nth_date ms k = Ret (if (1 <=? k) && (k <=? n) then day_or_none c (month_base + k - 1) else None).
-  Proof.
-    intros K. unfold MonthShape_nth_date. rewrite nth_day_closed by assumption. cbn [bind].
-    destruct ((1 <=? k) && (k <=? n)) eqn:In; [|reflexivity].
-    assert (KR : 1 <= k <= n) by lia.
-    unfold ms. cbn [MonthShape_f_calendar MonthShape_f_year MonthShape_f_month].
-    pose proof (sh_nth_in sp k W ltac:(lia)) as X.
-    assert (Dr : in_u32 (sh_nth sp k)).
-    { pose proof (sh_in_natural _ _ W X). pose proof (shape_of_natural c y mz). destruct (month_facts c y mz V Mr). fold sp in H0. range. }
-    rewrite at_ymd_ok by assumption. cbn [bind]. unfold at_ymd_spec. fold mz. fold n. fold sp.
-    destruct (Z.eqb_spec n 0); [lia|].
-    unfold sh_day_err. rewrite X. rewrite sh_ord_nth by (try assumption; lia).
-    pose proof (msum_succ c y mz Mr) as S.
-    assert (OR : 1 <= msum c y mz + k <= year_count c y).
-    { rewrite <- msum_total. pose proof (msum_le c y 1 mz ltac:(lia) ltac:(lia) ltac:(lia)). rewrite msum_1 in *.
-      pose proof (msum_le c y (mz + 1) 13 ltac:(lia) ltac:(lia) ltac:(lia)). fold n in S. lia. }
-    rewrite jdn_of_ordinal_closed by assumption.
-    unfold date_result, chk_jdn, day_or_none, month_base.
-    replace (ylo c y + (msum c y mz + k) - 1) with (ylo c y + msum c y mz + k - 1) by lia.
-    destruct (in_i32b (ylo c y + msum c y mz + k - 1)); reflexivity.
-  Qed.
+  Let n_small : 1 <= n <= 31 := NthDate.n_small c V y m Ex.
+  Let nth_day_closed k (K : in_u32 k) :
+    MonthShape_nth_day ms k = Ret (if (1 <=? k) && (k <=? n) then Some (sh_nth sp k) else None) := NthDate.nth_day_closed c V y m Ex k K.
+  Let nth_date_closed k (K : in_u32 k) :
+    MonthShape_nth_date ms k = Ret (if (1 <=? k) && (k <=? n) then day_or_none c (month_base + k - 1) else None) := NthDate.nth_date_closed c V y Hy m Ex k K.
 
   (* Days: every interleaving of next / next_back / len on the month's day iterator behaves as the deque over the
      list of existing days in ascending order *)
@@ -189,7 +146,7 @@ Section MonthIters.
     map (fun k => date_of c (month_base + k - 1)) (ri_seq dates_lo (Z.to_nat (dates_hi - dates_lo + 1))).
 
   Lemma dates_interval k : 1 <= k <= n -> (dates_lo <= k <= dates_hi <-> in_i32 (month_base + k - 1)).
-  Proof. intros K. unfold dates_lo, dates_hi, in_i32. cbv zeta. destruct (Z.leb_spec (Z.max 1 (i32_min - month_base + 1)) (Z.min n (i32_max - month_base + 1))); unfold i32_min, i32_max in *; lia. Qed.
+  Proof. clear nth_date_closed nth_day_closed n_small W Ln Mr ms. intros K. unfold dates_lo, dates_hi, in_i32. cbv zeta. destruct (Z.leb_spec (Z.max 1 (i32_min - month_base + 1)) (Z.min n (i32_max - month_base + 1))); unfold i32_min, i32_max in *; lia. Qed.
 
   Theorem dates_closed ops : dates_run ops ms = Ret (deque_run ops dates_list) /\ deque_ok dates_list (deque_run ops dates_list).
   Proof.
@@ -233,14 +190,6 @@ Section MonthIters.
   Qed.
 End MonthIters.
 
-(* ------------------------------------------------------------------ the statements for any month shape the API returns *)
-Lemma month_shape_some c y m s : ValidCal c -> in_i32 y -> Calendar_month_shape (cal_of c) y m = Ret (Some s) ->
-  0 < month_count c y (Month_discr m) /\ s = mkMonthShape (cal_of c) y m (shape_of c y (Month_discr m)).
-Proof.
-  intros V Hy E. rewrite month_shape_ok in E by assumption. unfold month_shape_spec in E.
-  pose proof (month_count_range c y (Month_discr m)).
-  destruct (Z.eqb_spec (month_count c y (Month_discr m)) 0); [discriminate|]. inversion E. split; [lia|reflexivity].
-Qed.
 
 Theorem days_all c y m s : ValidCal c -> in_i32 y -> Calendar_month_shape (cal_of c) y m = Ret (Some s) ->
   forall ops, days_run ops s = Ret (deque_run ops (days_list c y m)) /\ deque_ok (days_list c y m) (deque_run ops (days_list c y m)).
@@ -289,24 +238,4 @@ Proof.
     { unfold dates_lo, dates_hi in Hk. cbv zeta in Hk. destruct (Z.leb_spec (Z.max 1 (i32_min - month_base c y m + 1)) (Z.min (month_count c y (Month_discr m)) (i32_max - month_base c y m + 1))); lia. }
     split; [exact KR|]. split; [|reflexivity]. apply (dates_interval c y m Ex k KR). lia.
   - intros (k & KR & I & ->). exists k. split; [reflexivity|]. apply ri_seq_in. apply (dates_interval c y m Ex k KR) in I. lia.
-Qed.
-
-(* nth_date of any month shape the API returns: the date of day (month_base + k - 1), whose label is the k-th
-   existing day of that month, when that day number is a 32-bit number; None otherwise and outside 1..len *)
-Theorem nth_date_all c y m s k : ValidCal c -> in_i32 y -> in_u32 k -> Calendar_month_shape (cal_of c) y m = Ret (Some s) ->
-  MonthShape_nth_date s k =
-    Ret (if (1 <=? k) && (k <=? month_count c y (Month_discr m)) then day_or_none c (month_base c y m + k - 1) else None) /\
-  (1 <= k <= month_count c y (Month_discr m) ->
-     lbl c (month_base c y m + k - 1) = (y, Month_discr m, sh_nth (shape_of c y (Month_discr m)) k)).
-Proof.
-  intros V Hy Hk E. destruct (month_shape_some c y m s V Hy E) as [Ex ->]. split; [apply nth_date_closed; assumption|].
-  intros KR. pose proof (Month_discr_range m) as Mr. set (mz := Month_discr m) in *.
-  pose proof (shape_of_wf c y mz V Mr Ex) as W. pose proof (shape_of_len c y mz V Mr Ex) as Ln.
-  pose proof (sh_nth_in _ k W ltac:(lia)) as In.
-  destruct (ymd_inv c y mz (sh_nth (shape_of c y mz) k) k (jdn_of_ordinal c y (msum c y mz + k)) V Mr Ex In) as (EL & _); [symmetry; apply sh_ord_nth; [exact W|lia]|reflexivity|].
-  rewrite jdn_of_ordinal_closed in EL; [|exact V|].
-  - unfold month_base. fold mz. replace (ylo c y + msum c y mz + k - 1) with (ylo c y + (msum c y mz + k) - 1) by lia. exact EL.
-  - pose proof (msum_succ c y mz Mr) as S. rewrite <- msum_total.
-    pose proof (msum_le c y 1 mz ltac:(lia) ltac:(lia) ltac:(lia)). rewrite msum_1 in *.
-    pose proof (msum_le c y (mz + 1) 13 ltac:(lia) ltac:(lia) ltac:(lia)). lia.
 Qed.
